@@ -867,7 +867,8 @@ func (x *Exec) makeSlice(fr *Frame, st *State, i *ssa.MakeSlice) Val {
 	l64 := x.convertInt(ln.L[0], ls, 64)
 	c64 := x.convertInt(cp.L[0], cs, 64)
 	z := tb.BVInt(0, 64)
-	x.addObl(fr, st, "makeslice", i, "", tb.And(tb.SLe(z, l64), tb.SLe(l64, c64), tb.SLe(c64, tb.BVInt(1<<60, 64))))
+	// (memory exhaustion is outside the model: only the sign and len <= cap are obligations)
+	x.addObl(fr, st, "makeslice", i, "", tb.And(tb.SLe(z, l64), tb.SLe(l64, c64)))
 	arr := x.freshRef(st, "mk")
 	et := i.Type().Underlying().(*types.Slice).Elem()
 	x.zeroFillArr(st, et, arr)
